@@ -54,7 +54,7 @@ class C15(Prop):
         yield 'skipped-elements', skipped
         outs = []
         for _ in range(n // 5):
-            ev = {'name': 'E', 'reply': rng.choice([['void'], ['bool'], ['A', 'B'], ['void', 'x']]),
+            ev = {'name': 'E', 'reply': rng.choice([['void'], ['void'], ['bool'], ['A', 'B'], ['void', 'x'], ['x', 'void'], ['void', 'void'], ['My', 'Ns', 'void'], ['Void'], ['void_t']]),
                   'formals': [M.gen_formal(rng, M.IDS) for _ in range(rng.randint(0, 3))], 'dir': 'out'}
             src = [{'k': 'namespace', 'name': ['N'], 'elems': [{'k': 'interface', 'name': ['I'], 'types': [], 'events': [ev]}]}]
             outs.append({'op': 'parse', 'ast': M.enc_root(src)})
